@@ -14,6 +14,7 @@ type G struct {
 	frames []*Frame
 	done   bool
 	daemon bool // background goroutine whose steps commute with the others: scheduled first, without forking
+	lockYield bool // this goroutine has already been offered for preemption at its pending Lock call
 }
 
 var daemonPatterns = []string{"notificationsTrimmer).run", "wal.trimmer).run"}
@@ -144,7 +145,15 @@ func (m *Machine) schedule(s *State, includeCur bool) []*State {
 		}
 		return nil
 	}
+	if s.atPreempt {
+		m.stubs["sched-fork:lock-preemption"] += len(cands) - 1
+	} else if includeCur {
+		m.stubs["sched-fork:yield"] += len(cands) - 1
+	} else {
+		m.stubs["sched-fork:block-or-exit"] += len(cands) - 1
+	}
 	var out []*State
+	atPreempt := s.atPreempt
 	for k, ci := range cands {
 		st := s
 		if k < len(cands)-1 {
@@ -152,8 +161,12 @@ func (m *Machine) schedule(s *State, includeCur bool) []*State {
 			m.stats.forks++
 		}
 		if ci != st.cur {
+			if atPreempt {
+				st.preemptions++
+			}
 			st.switchTo(ci)
 		}
+		st.atPreempt = false
 		st.sched = append(append([]int(nil), st.sched...), ci)
 		out = append(out, st)
 	}
@@ -254,6 +267,22 @@ func (m *Machine) syncBlocking(s *State, f *Frame, name string, args []Value) (b
 		if ls.writer != 0 || ls.readers != 0 {
 			return true, m.block(s, f)
 		}
+		if m.preemptLock && len(s.gs) > 1 && !s.gs[s.cur].daemon && m.preemptHere(f) {
+			g := s.gs[s.cur]
+			if !g.lockYield && s.preemptions < m.preemptBound {
+				// preemption point right before a lock acquisition (context-bounded)
+				g.lockYield = true
+				f.idx--
+				s.atPreempt = true
+				succ := m.schedule(s, true)
+				s.atPreempt = false
+				if succ == nil && s.status == "" {
+					return true, []*State{s}
+				}
+				return true, succ
+			}
+			g.lockYield = false
+		}
 		ls.writer = s.cur + 1
 		s.locks[k] = ls
 		return true, nil
@@ -294,4 +323,18 @@ func (m *Machine) syncBlocking(s *State, f *Frame, name string, args []Value) (b
 		return true, nil
 	}
 	return false, nil
+}
+
+// preemptHere: lock preemption points are restricted to the mutexes named by the root (substring of the
+// function performing the Lock call, e.g. the promoted (*followerController).Lock wrapper).
+func (m *Machine) preemptHere(f *Frame) bool {
+	if len(m.preemptAt) == 0 {
+		return true
+	}
+	for _, p := range m.preemptAt {
+		if strings.Contains(f.fn.String(), p) {
+			return true
+		}
+	}
+	return false
 }
